@@ -47,6 +47,13 @@ class Cfg:
         """independent evaluation of the hash the filter uses for `key` (bytes/ASCII keys only)"""
         if self.hf is not None:
             return self.hf(key)
+        if isinstance(key, str) and not key.isascii():
+            # text is hashed code point by code point (each folded in as one value), whatever its normalisation form: two strings that
+            # differ as sequences of code points are two keys
+            h = refimpl.FNV64_OFFSET
+            for ch in key:
+                h = ((h ^ ord(ch)) * refimpl.FNV64_PRIME) % (1 << 64)
+            return h
         return refimpl.fnv1a_64(gen.to_bytes(key), 0)
 
     def raw_fp(self, key):
@@ -161,8 +168,16 @@ def gen_keys(rng, cfg, n):
     elif rng.random() < 0.2:
         cfg.hf = md5_single
         cfg.hname = "hand_md5_single_value"
+    elif rng.random() < 0.25:
+        # (library default hash) a few TEXT keys beyond ASCII, among them strings that are canonically equivalent but not equal
+        # (composed / decomposed / compatibility forms): distinct keys as far as the filter is concerned
+        keys += rng.sample(EXOTIC_TEXT, rng.randint(1, 4))
     keys = [k for k in keys if cfg.raw_fp(k) != 0]
     return keys
+
+
+EXOTIC_TEXT = ["cafe\u0301", "caf\u00e9", "\u212b", "\u00c5", "A\u030a", "\u2126", "\u03a9", "\u1100\u1161", "\uac00", "na\u00efve", "nai\u0308ve",
+               "\U0001f600", "\ufb01", "fi\u200b", "\u00df", "\u1e9e"]
 
 
 def with_zero_fp_keys(ctx, rng, cfg, keys, p=0.2):
